@@ -478,6 +478,21 @@ func SetPoolMode(m PoolMode) { poolMode = m }
 //go:norace
 func GetPoolStats() PoolStats { return poolStats }
 
+var poolGen uint64
+
+// ResetPools forgets all pool bookkeeping and free lists. For harness code that enumerates outside an execution
+// (no epoch changes there) and drops objects that still hold pooled buffers: without it the ownership table
+// keeps every buffer ever handed out alive.
+//
+//go:norace
+func ResetPools() {
+	if Active() {
+		return
+	}
+	poolGen++
+	poolInit = false
+}
+
 //go:norace
 func poolFresh() {
 	e := Epoch()
@@ -496,6 +511,7 @@ type Pool struct {
 	New   func() any
 	items []any
 	epoch uint64
+	gen   uint64
 	bcap  int
 }
 
@@ -509,8 +525,9 @@ func bufKey(b []byte) *byte {
 
 //go:norace
 func (p *Pool) fresh() {
-	if e := Epoch(); p.epoch != e {
+	if e := Epoch(); p.epoch != e || p.gen != poolGen {
 		p.epoch = e
+		p.gen = poolGen
 		p.items = nil
 		p.h = H{}
 	}
@@ -552,7 +569,9 @@ func (p *Pool) Get() any {
 	}
 	x := p.New()
 	poolStats.News++
-	if b, ok := x.([]byte); ok && cap(b) > 0 {
+	// ownership is tracked inside executions only: plain enumerations outside an execution never change epoch, the
+	// table would keep every buffer ever handed out alive
+	if b, ok := x.([]byte); ok && cap(b) > 0 && Active() {
 		if p.bcap == 0 {
 			p.bcap = cap(b)
 		}
